@@ -141,6 +141,7 @@ func propC09(w *World, r *Report) {
 	br09 := newBoundsRun(w)
 	RunLosslessFor(w, r, "C09", br09)
 	runNarrowBoundIn(w, r, br09, "/cmap")
+	runFlagReduceIn(w, r, "/cmap")
 	RunPrevSentinel(w, r, cm)
 	r.Floor("prevsentinel", 1)
 	RunNarrowSucc(w, r, cm, br09)
